@@ -9,7 +9,7 @@ from vlib import (Inconclusive, NCPU, log, run, run_tlc, stage_spec, validate_tr
 
 H_INV = ["H_WellFormed"]
 M_INV = ["M_Values", "M_Heads", "M_Nidx", "M_ClockId", "M_Iterator"]
-M_PROP = ["M_Append", "M_Join", "M_SetIdentity", "M_Tamper"]
+M_PROP = ["M_Append", "M_AppendWriteFault", "M_Join", "M_SetIdentity", "M_Tamper"]
 
 # Layer-P operators of each property: (model invariants, model action properties,
 #                                      trace invariants, trace action properties)
@@ -30,7 +30,7 @@ OPS = {
              "C06_OnlyValidAdded", "C06_BadCandidateRejected", "C06_ValidJoinSucceeds"]),
     "C15": (["C15_AlgoMeetsSpec"], [], ["C15_IterMeetsSpec"], []),
     "C17": (["C17_LinksPointBack"], [], [],
-            ["C17_StoreClosed", "C17_WrittenBeforeReturned", "C17_Recoverable", "C17_PublishResult"]),
+            ["C17_StoreClosed", "C17_WrittenBeforeReturned", "C17_Recoverable", "C17_PublishResult", "C17_FailedWriteLeavesLog"]),
     "C18": ([], [], [], ["C18_NoClearLinks", "C18_SameKeyRecovers", "C18_OtherKeyGetsNothing", "C18_AuditedSomething",
                          "C06_AppendedVerifies", "C06_ValidJoinSucceeds"]),
     "C16": ([], ["C16_Bounded"], [], ["C16_NoPanic", "C16_LastN"]),
@@ -39,7 +39,7 @@ OPS = {
 
 def base_consts(**kw):
     c = dict(NR=3, Writer0=[1, 2, 1], Lid=["X", "X", "X"], Fn="LWW", MaxE=4, MaxOps=6, PCs={1},
-             Sizes=set(), Writers=set(), Denied=[set(), set(), set()], HashPerm="id", IterOn=set(), Evil=set(), Kinds=set(), MaxBad=0, PubOn=set())
+             Sizes=set(), Writers=set(), Denied=[set(), set(), set()], HashPerm="id", IterOn=set(), Evil=set(), Kinds=set(), MaxBad=0, PubOn=set(), WriteFaults=False)
     c.update(kw)
     return c
 
